@@ -1297,6 +1297,18 @@ class Evaluator:
 
     # ---------------------------------------------------------------- calls
     def _e_Call(self, e, st):
+        # list(map(f, xs)) is [f(x) for x in xs] (evaluated as the comprehension so that f is applied, not just named)
+        if isinstance(e.func, ast.Name) and e.func.id == "list" and "list" not in st.loc and len(e.args) == 1 and not e.keywords \
+                and isinstance(e.args[0], ast.Call) and isinstance(e.args[0].func, ast.Name) and e.args[0].func.id == "map" \
+                and "map" not in st.loc and len(e.args[0].args) == 2 and not e.args[0].keywords \
+                and not any(isinstance(x, ast.Starred) for x in e.args[0].args):
+            v_ = ast.Name(id="_map_item", ctx=ast.Load())
+            comp = ast.ListComp(elt=ast.Call(func=e.args[0].args[0], args=[v_], keywords=[]),
+                                generators=[ast.comprehension(target=ast.Name(id="_map_item", ctx=ast.Store()), iter=e.args[0].args[1],
+                                                              ifs=[], is_async=0)])
+            ast.copy_location(comp, e)
+            ast.fix_missing_locations(comp)
+            return self._expr(comp, st)
         fterm = self._expr(e.func, st)
         args = []
         star = False
